@@ -1,6 +1,10 @@
 From Coq Require Import Extraction ExtrOcamlBasic ExtrOCamlFloats ExtrOCamlInt63 ZArith List QArith Floats.
-From MV Require Import Tri.PartitionDefs Tri.PartitionCheck.
+From MV Require Import Tri.PartitionDefs Tri.PartitionCheck Tri.SubdivideDefs.
 Extraction Language OCaml.
 Definition reindex_f := reindex float.
+Definition subdivide_tris_f := subdivide_tris float 0%float 1%float flerp.
+Definition subdivide_numvert_f := subdivide_numvert float 0%float 1%float flerp.
+Definition vert_owner_f := vert_owner float.
+Definition sub_parts_f := sub_parts float 0%float 1%float flerp.
 Extraction "../build/ml/c19_model.ml" get_partition_f reindex_f tiles_ok_float eps_float key_tiles_exact
-  set_tolerance simplify_tolerances.
+  set_tolerance simplify_tolerances subdivide_tris_f subdivide_numvert_f vert_owner_f sub_parts_f.
